@@ -141,7 +141,7 @@ class Runner:
             raise RuntimeError("cannot seed the typeshed cache: " + out + err)
         self.n = 0
 
-    def run(self, cwd: str, flags: list, args: list, env: dict | None = None) -> tuple:
+    def run(self, cwd: str, flags: list, args: list, env: dict | None = None, summary: bool = False) -> tuple:
         self.n += 1
         old_mp = os.environ.pop("MYPYPATH", None)
         if env and env.get("MYPYPATH"):
@@ -153,8 +153,8 @@ class Runner:
         old = os.getcwd()
         os.chdir(cwd)
         try:
-            out, err, rc = self.api.run(["--cache-dir", cache, "--no-error-summary", "--hide-error-context",
-                                         "--no-color-output", "--show-error-codes"] + flags + args)
+            out, err, rc = self.api.run(["--cache-dir", cache, "--error-summary" if summary else "--no-error-summary",
+                                         "--hide-error-context", "--no-color-output", "--show-error-codes"] + flags + args)
         except SystemExit as e:
             out, err, rc = "", "CRASH SystemExit %s" % (e.code,), 3
         except Exception as e:              # an internal error escaped mypy.api.run
